@@ -6,6 +6,7 @@ import (
 	"errors"
 	"fmt"
 	"io"
+	"mime/multipart"
 	"net/http"
 	"sort"
 	"strings"
@@ -322,6 +323,36 @@ func runC08(c *Ctx) {
 				badUpload{"form-md5-wrong", "reject-if-integrity", formReq(otherMD5, "Content-MD5")},
 				badUpload{"form-md5-not-base64", "reject-if-integrity", formReq("!!!not base64!!!", "Content-MD5")},
 				badUpload{"form-md5-empty", "reject-if-integrity", formReq("", "Content-MD5")},
+				// a complete form, but the request declares five bytes more than arrive
+				badUpload{"form-short-body", "reject", func(b, k string, body []byte) *drv.Req {
+					fb, ct := formUpload(k, body)
+					return &drv.Req{Method: "POST", Path: "/" + b, Body: fb, DeclLen: i64(int64(len(fb) + 5)), Header: drv.H("Content-Type", ct)}
+				}},
+				// the form ends (with its declared length) before the closing delimiter: the fields after
+				// the file (metadata, a Content-MD5 that does not match) never arrive
+				badUpload{"form-cut-before-closing-delimiter", "reject", func(b, k string, body []byte) *drv.Req {
+					var buf bytes.Buffer
+					mw := multipart.NewWriter(&buf)
+					mw.WriteField("key", k)
+					fw, _ := mw.CreateFormFile("file", "upload.bin")
+					fw.Write(body)
+					mw.WriteField("X-Amz-Meta-Color", "green")
+					cut := bytes.LastIndex(buf.Bytes(), []byte("Content-Disposition"))
+					mw.WriteField("Content-MD5", otherMD5)
+					mw.Close()
+					return &drv.Req{Method: "POST", Path: "/" + b, Body: buf.Bytes()[:cut], Header: drv.H("Content-Type", mw.FormDataContentType())}
+				}},
+				// the same form complete, minus the wrong digest: accepted
+				badUpload{"form-with-field-after-file", "accept", func(b, k string, body []byte) *drv.Req {
+					var buf bytes.Buffer
+					mw := multipart.NewWriter(&buf)
+					mw.WriteField("key", k)
+					fw, _ := mw.CreateFormFile("file", "upload.bin")
+					fw.Write(body)
+					mw.WriteField("X-Amz-Meta-Color", "green")
+					mw.Close()
+					return &drv.Req{Method: "POST", Path: "/" + b, Body: buf.Bytes(), Header: drv.H("Content-Type", mw.FormDataContentType())}
+				}},
 			)
 			for ui, u := range uploads {
 				key := fmt.Sprintf("frame/%s/%02d-%s", prior, ui, u.name)
